@@ -16,7 +16,9 @@
    add_to_merge_relation is only ever called with two objects that ARE leftmost at that moment (both come out of
    get_cfw_uuid), so an object gets a pointer at most once and pointers only lead to objects that were merged later:
    following the pointers from x is replaying the merges in order.  The model keeps the merge HISTORY and replays it
-   (rt_leftmost); harness/planner_l.py compares it with the real CfwManager on random merge sequences. *)
+   (rt_leftmost); the dict + while-loop form is modelled below (mrel, madd, mfollow) and proved equal on those histories
+   (Proofs/PlannerLRunP.v mfollow_replay, rt_run_roots_hist); harness/planner_l.py also compares rt_get_cfw with the real
+   CfwManager on random merge sequences. *)
 From Coq Require Import List Bool Arith String.
 Import ListNotations.
 Require Import MV.Model.Orch MV.Model.OrchCheck MV.Model.PlannerA MV.Model.LinkSel MV.Model.PlannerL.
@@ -91,3 +93,27 @@ Definition joins_of_plan (ord : oparam) (links : list plink) (p : list lstep) : 
                        end
                      | _ => []
                      end) p.
+
+(* ---------- CfwManager.cfw_merge_relation and find_leftmost as the code has them (a dict and a while loop) ----------
+   Proofs/PlannerLRunP.v mfollow_replay: on every history of merges between leftmost objects - the only ones JoinStep.execute
+   produces - following the pointers is replaying the history (rt_leftmost). *)
+Definition mrel := list (nat * nat).                   (* object -> the object it was merged into; latest assignment first *)
+Fixpoint mget (x : nat) (r : mrel) : option nat :=
+  match r with [] => None | (k, v) :: t => if Nat.eqb k x then Some v else mget x t end.
+(* add_to_merge_relation(left, right): rel[right] = left; if left not in rel: rel[left] = left *)
+Definition madd (left right : nat) (r : mrel) : mrel :=
+  let r1 := (right, left) :: r in match mget left r1 with None => (left, left) :: r1 | Some _ => r1 end.
+(* find_leftmost: if uuid not in rel: return uuid; while rel[uuid] != uuid: uuid = rel[uuid]   (fuel = iterations allowed) *)
+Fixpoint mfollow (fuel : nat) (r : mrel) (x : nat) : nat :=
+  match fuel with
+  | 0 => x
+  | S n => match mget x r with None => x | Some y => if Nat.eqb y x then x else mfollow n r y end
+  end.
+Definition mrel_of (h : hist) : mrel := fold_left (fun r m => madd (snd m) (fst m) r) h [].
+(* every merge joins two objects that are leftmost at that moment *)
+Fixpoint roots_hist_rev (hr : hist) : Prop :=
+  match hr with
+  | [] => True
+  | (fr, c) :: t => roots_hist_rev t /\ rt_leftmost (rev t) fr = fr /\ rt_leftmost (rev t) c = c
+  end.
+Definition roots_hist (h : hist) : Prop := roots_hist_rev (rev h).
